@@ -687,7 +687,34 @@ pub fn check_output(model: &Model, bytes: &[u8]) -> Result<Vec<Mismatch>, String
                 continue;
             }
             let occ: Vec<usize> = of.body.iter().enumerate().filter(|(_, i)| **i == Ins::I32Const(*magic)).map(|(k, _)| k).collect();
-            let _ = &occ;
+            // every copy of the probe in the output is the body the caller built, and every reference in
+            // it designates the entity the caller's ID designated (whatever the lowering did around it)
+            if let Some(pb) = model.probe_bodies.get(magic) {
+                if let Some(off) = pb.iter().position(|i| *i == Ins::I32Const(*magic)) {
+                    'occ: for k in &occ {
+                        let start = match k.checked_sub(off) {
+                            Some(s) if s + pb.len() <= act_body.len() => s,
+                            _ => continue,
+                        };
+                        for (j, pi) in pb.iter().enumerate() {
+                            let e = rf(pi);
+                            let a = &act_body[start + j];
+                            if e.ins != a.ins {
+                                break; // not a verbatim copy: how a mode lowers its body is not judged here
+                            }
+                            if e.refs != a.refs {
+                                let (kind, site) = ref_site(pi);
+                                mm.push(Mismatch::new(
+                                    kind,
+                                    &format!("{site}(injected)"),
+                                    format!("func {:#x} probe {:#x} ({}) pos {}: expected {:?} got {:?}", l.magic, magic, mode.name(), start + j, e.refs, a.refs),
+                                ));
+                                break 'occ;
+                            }
+                        }
+                    }
+                }
+            }
             if occ.is_empty() {
                 mm.push(Mismatch::new(
                     "probe_missing",
@@ -747,7 +774,7 @@ pub fn check_output(model: &Model, bytes: &[u8]) -> Result<Vec<Mismatch>, String
                 if mf.name_known && mf.name.as_ref() != Some(name) {
                     mm.push(Mismatch::new(
                         "name_migrated",
-                        "func",
+                        if model.local(f).map_or(false, |l| l.built) { "func(built)" } else { "func" },
                         format!("name {:?} attached to {:?}, whose name is {:?}", name, fp, mf.name),
                     ));
                 }
@@ -761,7 +788,8 @@ pub fn check_output(model: &Model, bytes: &[u8]) -> Result<Vec<Mismatch>, String
             let fp = model.func_fp(f);
             let present = out.names.funcs.iter().any(|(i, nn)| nn == n && maps.funcs.get(*i as usize).cloned() == fp);
             if !present && !out.names.funcs.iter().any(|(i, _)| maps.funcs.get(*i as usize).cloned() == fp) {
-                mm.push(Mismatch::new("name_lost", "func", format!("{:?} of {:?}", n, fp)));
+                let site = if model.local(f).map_or(false, |l| l.built) { "func(built)" } else { "func" };
+                mm.push(Mismatch::new("name_lost", site, format!("{:?} of {:?}", n, fp)));
             }
         }
     }
